@@ -52,6 +52,7 @@ func (c *FnCtx) binop(st *State, op token.Token, xv, yv SymVal, xt, yt types.Typ
 	x := xv.(*Term)
 	y := yv.(*Term)
 	srt := x.sort
+	c.curPos = pos
 	switch op {
 	case token.EQL, token.NEQ:
 		var eq *Term
@@ -167,8 +168,22 @@ func isSliceType(t types.Type) bool {
 	return ok
 }
 
-// wrapInt: machine arithmetic treated as mathematical (assumption recorded); no wrap-around is modelled.
+// wrapInt: machine arithmetic is modelled as mathematical arithmetic; that is justified by an obligation at every
+// +, -, * of the real code that the mathematical result fits the operand type (kind "overflow").
 func (c *FnCtx) wrapInt(st *State, v *Term, t types.Type) *Term {
-	c.trusted["machine integer arithmetic is treated as mathematical (no overflow modelled)"] = true
+	ts := c.eng.ts
+	if _, isLit := v.IntLit(); isLit {
+		return v
+	}
+	b, ok := t.Underlying().(*types.Basic)
+	if !ok {
+		return v
+	}
+	lo, hi := intRange(b)
+	if lo == "" {
+		return v
+	}
+	c.addObl(st, "overflow", fmt.Sprintf("#%d", c.kindOrd["overflow"]), ts.And(ts.Le(ts.BigInt(lo), v), ts.Le(v, ts.BigInt(hi))), c.curPos, "integer arithmetic may wrap around")
+	c.trusted["lengths of strings, slices and maps are at most 2^56 (address-space bound)"] = true
 	return v
 }
